@@ -364,8 +364,14 @@ class Explorer:
                 else:
                     v = ("proj", v, names)
                 continue
-            # indexing
-            names = ("[]",)
+            # indexing: constant indices are distinct places; a variable index is named by its local
+            if e[0] == "ci":
+                names = ("[%s%d]" % ("-" if e[2] else "", e[1]),)
+            elif e[0] == "ix":
+                iv = env.get(e[1])
+                names = ("[%s]" % (iv[1] if (iv is not None and iv[0] == "const") else "_%d" % e[1]),)
+            else:
+                names = ("[..]",)
             if v[0] in ("param", "local"):
                 v = (v[0], v[1], v[2] + names)
             elif v[0] == "proj":
